@@ -32,3 +32,18 @@ pub proof fn thm_c04_forced_command_keeps_its_place_in_the_threads_order<T>(push
     ensures (pushed1 + pending1).last() == v, (pushed1 + pending1).drop_last() =~= pushed0 + pending0,
 {
 }
+
+// C09, "finish and cancel signals are neither dropped nor reordered while the thread lives": the same
+// statement as thm_c04_forced_command_is_in_the_ring_when_force_send_returns, seen from the overload
+// property.  NOT PROVABLE for the same reason: a CommitCollect parked on a full ring is moved on only
+// by that thread's next command (or its exit); a living but idle thread withholds it indefinitely --
+// no collector cycle and no flush() un-parks it -- so in cancelable mode the whole trace, including
+// span sets that were accepted before the queue filled up, is not delivered, and in the default mode
+// the trace's collector entry stays (findings/hunt/C/parked_commit_stuck.rs: 0 of 10239 accepted
+// child records after three flushes; all of them after one unrelated tracing call on that thread).
+// Known finding D13.
+pub proof fn thm_c09_finish_signal_is_in_the_ring_when_force_send_returns<T>(pushed0: Seq<T>, pending0: Seq<T>, pushed1: Seq<T>, pending1: Seq<T>, v: T)
+    requires pushed1 + pending1 =~= (pushed0 + pending0).push(v),
+    ensures pending1.len() == 0,
+{
+}
